@@ -157,3 +157,81 @@ theorem covers_refl : ∀ (a : List Nat), covers a a
   | _ :: t => ⟨Nat.le_refl _, covers_refl t⟩
 
 end Btc.C18
+
+namespace Btc.C18
+open Btc Btc.Script Btc.Spend
+
+theorem p2ms_length {vk : Bytes → Bool} {s : Bytes} {r : Nat × List Bytes} (h : p2msMAndKeys vk s = some r) :
+    37 ≤ s.length := by
+  unfold p2msMAndKeys at h
+  by_cases hl : s.length < 37
+  · simp [hl] at h
+  · omega
+
+/-- `_finalized_input` on an input whose satisfied script is a k-of-n multisig (bare, behind p2sh, in p2wsh,
+    in p2sh-p2wsh): dummy, the first m signatures in key order, then the redeem script (legacy) / the witness
+    script (segwit).  Nothing about the script is assumed beyond what `p2ms_m_and_keys` answered. -/
+theorem finalize_multisig (vk : Bytes → Bool) (spk redeem ws : Bytes) (ps : List (Bytes × Bytes))
+    (m : Nat) (keys : List Bytes)
+    (hms : p2msMAndKeys vk (satisfiedScript ⟨some spk, redeem, ws, ps⟩) = some (m, keys))
+    (hn : m ≤ (keys.filterMap fun k => ps.lookup k).length) :
+    finalizedInput vk ⟨some spk, redeem, ws, ps⟩ =
+      .ok (if ws.isEmpty
+        then (serializePushes ((([] : Bytes) :: (keys.filterMap fun k => ps.lookup k).take m) ++
+                (if redeem.isEmpty then [] else [redeem])), [])
+        else (serializePushes (if redeem.isEmpty then [] else [redeem]),
+              (([] : Bytes) :: (keys.filterMap fun k => ps.lookup k).take m) ++ [ws])) := by
+  have hlen := p2ms_length hms
+  have hne : (satisfiedScript ⟨some spk, redeem, ws, ps⟩).isEmpty = false := by
+    cases hs : satisfiedScript ⟨some spk, redeem, ws, ps⟩ with
+    | nil => rw [hs] at hlen; simp at hlen
+    | cons _ _ => rfl
+  have hlt : ¬ ((keys.filterMap fun k => ps.lookup k).length < m) := by omega
+  by_cases hw : ws.isEmpty = true
+  · have hsat : satisfiedScript ⟨some spk, redeem, ws, ps⟩ = spentScript ⟨some spk, redeem, ws, ps⟩ := by
+      simp [satisfiedScript, hw]
+    rw [hsat] at hms hlen hne
+    have h1 : isP2wpkh (spentScript ⟨some spk, redeem, ws, ps⟩) = false := by
+      have : (spentScript ⟨some spk, redeem, ws, ps⟩).length ≠ 22 := by omega
+      simp [isP2wpkh, this]
+    have h2 : isP2pkh (spentScript ⟨some spk, redeem, ws, ps⟩) = false := by
+      have : (spentScript ⟨some spk, redeem, ws, ps⟩).length ≠ 25 := by omega
+      simp [isP2pkh, this]
+    simp [finalizedInput, pushedSigs, bip147Dummy, isP2ms, hsat, hms, hne, hlt, hw, h1, h2, bind, Except.bind,
+      pure, Except.pure]
+  · have hw' : ws.isEmpty = false := by simpa using hw
+    have hsat : satisfiedScript ⟨some spk, redeem, ws, ps⟩ = ws := by simp [satisfiedScript, hw']
+    rw [hsat] at hms hlen hne
+    have h2 : isP2pkh ws = false := by
+      have : ws.length ≠ 25 := by omega
+      simp [isP2pkh, this]
+    simp [finalizedInput, pushedSigs, bip147Dummy, isP2ms, hsat, hms, hne, hlt, hw', h2, bind, Except.bind,
+      pure, Except.pure]
+
+end Btc.C18
+
+namespace Btc.C18
+open Btc Btc.Script Btc.Spend
+
+theorem lookup_mem : ∀ (ps : List (Bytes × Bytes)) (k v : Bytes), ps.lookup k = some v → ∃ k', (k', v) ∈ ps
+  | [], _, _, h => by simp [List.lookup] at h
+  | (a, b) :: t, k, v, h => by
+    unfold List.lookup at h
+    split at h
+    · cases h; exact ⟨a, by simp⟩
+    · obtain ⟨k', hk⟩ := lookup_mem t k v h
+      exact ⟨k', by simp [hk]⟩
+
+/-- the signatures the finalizer pushes are partial_sigs values: m of them, each bounded as the partial sigs are -/
+theorem pushed_sigs_bounded (ps : List (Bytes × Bytes)) (keys : List Bytes) (m n : Nat)
+    (hn : m ≤ (keys.filterMap fun k => ps.lookup k).length) (hs : ∀ e ∈ ps, e.2.length ≤ n) :
+    ((keys.filterMap fun k => ps.lookup k).take m).length = m ∧
+    ∀ s ∈ (keys.filterMap fun k => ps.lookup k).take m, s.length ≤ n := by
+  refine ⟨by simp; omega, ?_⟩
+  intro s hs'
+  have h1 := List.mem_of_mem_take hs'
+  obtain ⟨k, _, hk⟩ := List.mem_filterMap.mp h1
+  obtain ⟨k', hk'⟩ := lookup_mem ps k s hk
+  exact hs (k', s) hk'
+
+end Btc.C18
